@@ -123,6 +123,8 @@ def regen():
     if write_if_changed(os.path.join(COQ, "Gen", "SerdeGen.v"), serde_gen.gen_v()):
         changed.append("SerdeGen.v")
     import instrs
+    if write_if_changed(os.path.join(COQ, "Gen", "StdGen.v"), instrs.gen_std_v()):
+        changed.append("StdGen.v")
     if write_if_changed(os.path.join(COQ, "Gen", "AsmGen.v"), instrs.gen_asm_v()):
         changed.append("AsmGen.v")
     return changed
